@@ -1066,6 +1066,15 @@ def network_from_a_checked_mask(ctx: Ctx, rep: Report, rid: str = "R05.18") -> N
         rep.note(f"{rid} no inverted mask reaches an IPv4Network construction in the wildcard module - not judged")
 
 
+def _enclosing_loop(fn: ast.AST, node: ast.AST) -> Optional[ast.AST]:
+    p_ = getattr(node, "_parent", None)
+    while p_ is not None and p_ is not fn:
+        if isinstance(p_, (ast.For, ast.While)):
+            return p_
+        p_ = getattr(p_, "_parent", None)
+    return None
+
+
 def limit_error_not_swallowed(ctx: Ctx, rep: Report, rid: str = "R05.16") -> None:
     """"Rejected with an error, never approximated" holds for containers too: where a builder skips an item whose text it
     cannot read (`except ValueError: log; continue`) and the construction in the `try` can raise the limit error
@@ -1083,7 +1092,9 @@ def limit_error_not_swallowed(ctx: Ctx, rep: Report, rid: str = "R05.16") -> Non
                 continue
             for hi, h_ in enumerate(t.handlers):
                 cs = handler_classes(h_)
-                skips = any(isinstance(x, (ast.Continue, ast.Return, ast.Break)) for b in h_.body for x in ast.walk(b)) and not isinstance(h_.body[-1], ast.Raise)
+                # a handler that does not end in `raise` swallows the error: with `continue`/`return`/`break`, or by simply
+                # falling through (the `else:` of the try holds what only happens on success)
+                skips = not isinstance(h_.body[-1], ast.Raise) and (any(isinstance(x, (ast.Continue, ast.Return, ast.Break)) for b in h_.body for x in ast.walk(b)) or bool(t.orelse) or _enclosing_loop(f.node, t) is not None)
                 if not skips or not (not cs or any(c in ("ValueError", "Exception", "BaseException") for c in cs)):
                     continue
                 n += 1
